@@ -101,10 +101,73 @@ func runC13Chain(c *Ctx) {
 		}
 		return false
 	}
-	fromChain := flowsFrom(f, func(v ssa.Value) bool {
+	isChain := func(v ssa.Value) bool {
 		return isCallTo(v, "geom.monotoneChain", "geom.(Polygon).ForceCCW", "geom.(Geometry).ForceCCW")
-	})
-	fromPts := flowsFrom(f, func(v ssa.Value) bool { return isCallTo(v, "geom.convexHullPointSet") })
+	}
+	// a result of a helper introduced since the baseline that hands the chain's result back (nil on its other paths)
+	helperResult := func(v ssa.Value, src func(ssa.Value) bool) bool {
+		var call *ssa.Call
+		idx := 0
+		switch x := v.(type) {
+		case *ssa.Extract:
+			call, _ = x.Tuple.(*ssa.Call)
+			idx = x.Index
+		case *ssa.Call:
+			call = x
+		}
+		if call == nil {
+			return false
+		}
+		h := staticCallee(call)
+		if h == nil || !isNewHelper(h) || len(h.Blocks) == 0 {
+			return false
+		}
+		flows := flowsFrom(h, src)
+		// its other paths may hand back nil or something taken from its own parameters (the degenerate cases)
+		fromParams := flowsFrom(h, func(x ssa.Value) bool {
+			in, ok := x.(ssa.Instruction)
+			if !ok {
+				return false
+			}
+			for _, op := range in.Operands(nil) {
+				if *op != nil {
+					if _, isPar := (*op).(*ssa.Parameter); isPar {
+						return true
+					}
+				}
+			}
+			return false
+		})
+		some := false
+		for _, r := range returnsOf(h) {
+			if idx >= len(r.Results) {
+				return false
+			}
+			rv := r.Results[idx]
+			if isNilConst(rv) {
+				continue
+			}
+			if flows[rv] {
+				some = true
+				continue
+			}
+			if !fromParams[rv] {
+				return false
+			}
+		}
+		return some
+	}
+	isPts := func(v ssa.Value) bool { return isCallTo(v, "geom.convexHullPointSet") }
+	// inside a helper the point set arrives as a parameter
+	isPtsOrParam := func(v ssa.Value) bool {
+		if isPts(v) {
+			return true
+		}
+		_, isPar := v.(*ssa.Parameter)
+		return isPar
+	}
+	fromChain := flowsFrom(f, func(v ssa.Value) bool { return isChain(v) || helperResult(v, isChain) })
+	fromPts := flowsFrom(f, func(v ssa.Value) bool { return isPts(v) || helperResult(v, isPtsOrParam) })
 	nChain := 0
 	for _, r := range returnsOf(f) {
 		if len(r.Results) != 1 {
